@@ -16,12 +16,30 @@ const SERVERIP2: Ipv4Addr = Ipv4Addr::new(10, 9, 0, 2);
 const FOREIGN: Ipv4Addr = Ipv4Addr::new(10, 77, 0, 1);
 const NOPOLICY_IP: Ipv4Addr = Ipv4Addr::new(10, 8, 0, 1);
 
+thread_local! {
+    /// address index i (1-based) <-> 10.0.0.0 + AMAP[i-1]; empty = identity
+    static AMAP: std::cell::RefCell<Vec<u32>> = const { std::cell::RefCell::new(Vec::new()) };
+}
+fn set_amap(v: Vec<u32>) {
+    AMAP.with(|m| *m.borrow_mut() = v);
+}
 fn addr(x: i64) -> Ipv4Addr {
-    Ipv4Addr::from(BASE + x as u32)
+    let off = AMAP.with(|m| {
+        let m = m.borrow();
+        if m.is_empty() || x < 1 || x as usize > m.len() { x as u32 } else { m[x as usize - 1] }
+    });
+    Ipv4Addr::from(BASE + off)
 }
 fn idx(a: Ipv4Addr) -> i64 {
     let v = u32::from(a);
-    if (BASE..BASE + 0x10000).contains(&v) { (v - BASE) as i64 } else { -1 }
+    if !(BASE..BASE + 0x100000).contains(&v) {
+        return -1;
+    }
+    let off = v - BASE;
+    AMAP.with(|m| {
+        let m = m.borrow();
+        if m.is_empty() { off as i64 } else { m.iter().position(|o| *o == off).map(|p| p as i64 + 1).unwrap_or(-1) }
+    })
 }
 
 /// How client `c` identifies itself on the wire: (chaddr, optional client-id).
@@ -126,10 +144,11 @@ pub fn yaml_for_pool(p: &[i64]) -> String {
         s.push_str("    apply-domain-name: example.org\n");
         return s;
     }
-    let lo = *p.iter().min().unwrap();
-    let hi = *p.iter().max().unwrap();
-    s.push_str(&format!("    apply-range: {{start: {}, end: {}}}\n", addr(lo), addr(hi)));
-    let holes: Vec<i64> = (lo..=hi).filter(|x| !p.contains(x)).collect();
+    let real: Vec<u32> = p.iter().map(|x| u32::from(addr(*x))).collect();
+    let lo = *real.iter().min().unwrap();
+    let hi = *real.iter().max().unwrap();
+    s.push_str(&format!("    apply-range: {{start: {}, end: {}}}\n", Ipv4Addr::from(lo), Ipv4Addr::from(hi)));
+    let holes: Vec<u32> = (lo..=hi).filter(|x| !real.contains(x)).collect();
     if !holes.is_empty() {
         s.push_str("    policies:\n");
         for h in holes {
@@ -137,14 +156,14 @@ pub fn yaml_for_pool(p: &[i64]) -> String {
                 "      - {{ match-hardware-address: \"02:ff:ff:ff:{:02x}:{:02x}\", apply-address: {} }}\n",
                 (h >> 8) & 0xff,
                 h & 0xff,
-                addr(h)
+                Ipv4Addr::from(h)
             ));
         }
     }
     s
 }
 
-struct PktCtx {
+pub struct PktCtx {
     cfgs: HashMap<Vec<i64>, erbium::config::SharedConfig>,
     rt: tokio::runtime::Runtime,
 }
@@ -154,7 +173,9 @@ impl PktCtx {
         let mut key = p.to_vec();
         key.sort();
         key.dedup();
-        if let Some(c) = self.cfgs.get(&key) {
+        // the cache is keyed by the real addresses (the index map differs between scenarios)
+        let ckey: Vec<i64> = key.iter().map(|x| u32::from(addr(*x)) as i64).collect();
+        if let Some(c) = self.cfgs.get(&ckey) {
             return c.clone();
         }
         let y = yaml_for_pool(&key);
@@ -162,7 +183,7 @@ impl PktCtx {
             eprintln!("harness: generated config rejected: {}\n{}", e, y);
             std::process::exit(2)
         });
-        self.cfgs.insert(key, c.clone());
+        self.cfgs.insert(ckey, c.clone());
         c
     }
 }
@@ -240,6 +261,15 @@ fn run_msg_pkt(st: &mut Store, ctx: &mut PktCtx, step: &Value) -> Value {
     if let Some(s) = sidaddr {
         options.other.insert(dhcppkt::OPTION_SERVERID, s.octets().to_vec());
     }
+    if let Some(w) = step["want"].as_u64() {
+        options.other.insert(dhcppkt::OPTION_LEASETIME, (w as u32).to_be_bytes().to_vec());
+    }
+    if let Some(pl) = step["plist"].as_array() {
+        options.other.insert(dhcppkt::OPTION_PARAMLIST, pl.iter().map(|x| x.as_u64().unwrap() as u8).collect());
+    }
+    if let Some(v) = step["vclass"].as_str() {
+        options.other.insert(dhcppkt::OPTION_VENDOR_CLASS, v.as_bytes().to_vec());
+    }
     if let Some(h) = step["hostname"].as_array() {
         options.other.insert(dhcppkt::OPTION_HOSTNAME, h.iter().map(|x| x.as_u64().unwrap() as u8).collect());
     }
@@ -313,6 +343,123 @@ fn run_msg_pkt(st: &mut Store, ctx: &mut PktCtx, step: &Value) -> Value {
            "echo":echo,"rsid":rsid,"rtype":rtype,"err":err,"db":st.table()})
 }
 
+pub fn new_ctx() -> PktCtx {
+    PktCtx {
+        cfgs: HashMap::new(),
+        rt: tokio::runtime::Builder::new_current_thread().enable_all().build().unwrap(),
+    }
+}
+
+/// Replay one scenario into a fresh store; `restart_before` inserts a
+/// close/reopen before the step with that index (restart-equivalence runs).
+pub fn run_scenario(sc: &Value, n: usize, dbdir: &str, epoch: i64, ctx: &mut PktCtx, restart_before: Option<usize>) -> Vec<Value> {
+    let mut out: Vec<Value> = Vec::new();
+    let lvl = sc["lvl"].as_str().unwrap_or("pool").to_string();
+    let u = sc["U"].as_i64().unwrap_or(4);
+    let minl = sc["minl"].as_i64().unwrap_or(2);
+    let maxl = sc["maxl"].as_i64().unwrap_or(10);
+    let path = std::path::Path::new(dbdir).join(format!("leases-{}.sqlite", n));
+    let _ = std::fs::remove_file(&path);
+    let pool = pool::Pool::verif_open(&path).unwrap_or_else(|e| {
+        eprintln!("cannot open fresh store: {}", e);
+        std::process::exit(2)
+    });
+    set_amap(sc["amap"].as_array().map(|a| a.iter().map(|x| x.as_u64().unwrap() as u32).collect()).unwrap_or_default());
+    let mut st = Store { pool: Some(pool), path: path.clone(), epoch, shift: 0, ids: HashMap::new() };
+    for c in 1..=64 {
+        st.ids.insert(client_identity(c, &lvl), c);
+    }
+    out.push(json!({"ev":"reset","sc":sc["sc"],"lvl":lvl,"U":(1..=u).collect::<Vec<i64>>(),"t":st.now(),"db":[]}));
+    let mut steps: Vec<Value> = sc["steps"].as_array().unwrap().clone();
+    if let Some(k) = restart_before {
+        steps.insert(k.min(steps.len()), json!({"k":"restart"}));
+    }
+    for step in steps.iter() {
+        match step["k"].as_str().unwrap() {
+            "msg" => {
+                let e = if lvl == "pool" { run_msg_pool(&mut st, step, minl, maxl) } else { run_msg_pkt(&mut st, ctx, step) };
+                out.push(e);
+            }
+            "tick" => {
+                let d = step["d"].as_i64().unwrap();
+                st.shift_rows(d);
+                out.push(json!({"ev":"tick","d":d,"t":st.now()}));
+            }
+            "tickto" => {
+                // advance the clock to expiry(x)+off, if that lies in the future
+                let x = step["x"].as_i64().unwrap();
+                let off = step["off"].as_i64().unwrap_or(0);
+                let d = st.expiry_of(x).map(|e| e + off - st.now()).unwrap_or(0).max(0);
+                st.shift_rows(d);
+                out.push(json!({"ev":"tick","d":d,"t":st.now()}));
+            }
+            "restart" => {
+                st.pool = None; // close
+                let r = guarded(|| pool::Pool::verif_open(&st.path));
+                match r {
+                    Ok(Ok(p)) => {
+                        st.pool = Some(p);
+                        out.push(json!({"ev":"reopen","outcome":"ok","db":st.table()}));
+                    }
+                    Ok(Err(e)) => {
+                        out.push(json!({"ev":"reopen","outcome":"err","err":format!("{}",e),"db":[]}));
+                        break;
+                    }
+                    Err(p) => {
+                        out.push(json!({"ev":"reopen","outcome":"panic","err":p,"db":[]}));
+                        break;
+                    }
+                }
+            }
+            "metrics" => {
+                let t0 = st.now();
+                let r = {
+                    let p = st.pool.as_mut().unwrap();
+                    guarded(|| p.get_pool_metrics())
+                };
+                let t1 = st.now();
+                let (outcome, a, e, err) = match r {
+                    Ok(Ok((a, e))) => ("ok", a as i64, e as i64, String::new()),
+                    Ok(Err(e)) => ("err", -1, -1, format!("{}", e)),
+                    Err(p) => ("panic", -1, -1, p),
+                };
+                out.push(json!({"ev":"metrics","t0":t0,"t1":t1,"outcome":outcome,"active":a,"expired":e,"err":err}));
+            }
+            "list" => {
+                let r = {
+                    let p = st.pool.as_mut().unwrap();
+                    guarded(|| p.get_leases())
+                };
+                let (outcome, entries) = match r {
+                    Ok(Ok(v)) => (
+                        "ok",
+                        v.iter()
+                            .map(|li| json!([idx(li.ip), st.client_index(&li.client_id), st.model(li.start as i64), st.model(li.expire as i64)]))
+                            .collect::<Vec<_>>(),
+                    ),
+                    Ok(Err(_)) => ("err", vec![]),
+                    Err(_) => ("panic", vec![]),
+                };
+                out.push(json!({"ev":"list","outcome":outcome,"entries":entries}));
+            }
+            k => {
+                eprintln!("unknown step kind {}", k);
+                std::process::exit(2)
+            }
+        }
+    }
+    // final table relative to the end of the run (for run-to-run comparison)
+    if st.pool.is_some() {
+        let now = st.now();
+        let rel: Vec<Value> = st.table().as_array().unwrap().iter()
+            .map(|r| json!([r[0], r[1], r[2].as_i64().unwrap() - now, r[3].as_i64().unwrap() - now])).collect();
+        out.push(json!({"ev":"end","t":now,"rel":rel}));
+    }
+    drop(st);
+    let _ = std::fs::remove_file(&path);
+    out
+}
+
 pub fn main(args: &[String]) {
     let scen = read_ndjson(&arg(args, "--scenarios").expect("--scenarios"));
     let mut out = Trace::create(&arg(args, "--out").expect("--out"));
@@ -320,102 +467,11 @@ pub fn main(args: &[String]) {
     std::fs::create_dir_all(&dbdir).unwrap();
     quiet_panics();
     let epoch = now_secs();
-    let mut ctx = PktCtx {
-        cfgs: HashMap::new(),
-        rt: tokio::runtime::Builder::new_current_thread().enable_all().build().unwrap(),
-    };
+    let mut ctx = new_ctx();
     for (n, sc) in scen.iter().enumerate() {
-        let lvl = sc["lvl"].as_str().unwrap_or("pool").to_string();
-        let u = sc["U"].as_i64().unwrap_or(4);
-        let minl = sc["minl"].as_i64().unwrap_or(2);
-        let maxl = sc["maxl"].as_i64().unwrap_or(10);
-        let path = std::path::Path::new(&dbdir).join(format!("leases-{}.sqlite", n));
-        let _ = std::fs::remove_file(&path);
-        let pool = pool::Pool::verif_open(&path).unwrap_or_else(|e| {
-            eprintln!("cannot open fresh store: {}", e);
-            std::process::exit(2)
-        });
-        let mut st = Store { pool: Some(pool), path: path.clone(), epoch, shift: 0, ids: HashMap::new() };
-        for c in 1..=64 {
-            st.ids.insert(client_identity(c, &lvl), c);
+        for e in run_scenario(sc, n, &dbdir, epoch, &mut ctx, None) {
+            out.emit(e);
         }
-        out.emit(json!({"ev":"reset","sc":sc["sc"],"lvl":lvl,"U":(1..=u).collect::<Vec<i64>>(),"t":st.now(),"db":[]}));
-        for step in sc["steps"].as_array().unwrap() {
-            match step["k"].as_str().unwrap() {
-                "msg" => {
-                    let e = if lvl == "pool" { run_msg_pool(&mut st, step, minl, maxl) } else { run_msg_pkt(&mut st, &mut ctx, step) };
-                    out.emit(e);
-                }
-                "tick" => {
-                    let d = step["d"].as_i64().unwrap();
-                    st.shift_rows(d);
-                    out.emit(json!({"ev":"tick","d":d,"t":st.now()}));
-                }
-                "tickto" => {
-                    // advance the clock to expiry(x)+off, if that lies in the future
-                    let x = step["x"].as_i64().unwrap();
-                    let off = step["off"].as_i64().unwrap_or(0);
-                    let d = st.expiry_of(x).map(|e| e + off - st.now()).unwrap_or(0).max(0);
-                    st.shift_rows(d);
-                    out.emit(json!({"ev":"tick","d":d,"t":st.now()}));
-                }
-                "restart" => {
-                    st.pool = None; // close
-                    let r = guarded(|| pool::Pool::verif_open(&st.path));
-                    match r {
-                        Ok(Ok(p)) => {
-                            st.pool = Some(p);
-                            out.emit(json!({"ev":"reopen","outcome":"ok","db":st.table()}));
-                        }
-                        Ok(Err(e)) => {
-                            out.emit(json!({"ev":"reopen","outcome":"err","err":format!("{}",e),"db":[]}));
-                            break;
-                        }
-                        Err(p) => {
-                            out.emit(json!({"ev":"reopen","outcome":"panic","err":p,"db":[]}));
-                            break;
-                        }
-                    }
-                }
-                "metrics" => {
-                    let t0 = st.now();
-                    let r = {
-                        let p = st.pool.as_mut().unwrap();
-                        guarded(|| p.get_pool_metrics())
-                    };
-                    let t1 = st.now();
-                    let (outcome, a, e, err) = match r {
-                        Ok(Ok((a, e))) => ("ok", a as i64, e as i64, String::new()),
-                        Ok(Err(e)) => ("err", -1, -1, format!("{}", e)),
-                        Err(p) => ("panic", -1, -1, p),
-                    };
-                    out.emit(json!({"ev":"metrics","t0":t0,"t1":t1,"outcome":outcome,"active":a,"expired":e,"err":err}));
-                }
-                "list" => {
-                    let r = {
-                        let p = st.pool.as_mut().unwrap();
-                        guarded(|| p.get_leases())
-                    };
-                    let (outcome, entries) = match r {
-                        Ok(Ok(v)) => (
-                            "ok",
-                            v.iter()
-                                .map(|li| json!([idx(li.ip), st.client_index(&li.client_id), st.model(li.start as i64), st.model(li.expire as i64)]))
-                                .collect::<Vec<_>>(),
-                        ),
-                        Ok(Err(_)) => ("err", vec![]),
-                        Err(_) => ("panic", vec![]),
-                    };
-                    out.emit(json!({"ev":"list","outcome":outcome,"entries":entries}));
-                }
-                k => {
-                    eprintln!("unknown step kind {}", k);
-                    std::process::exit(2)
-                }
-            }
-        }
-        drop(st);
-        let _ = std::fs::remove_file(&path);
     }
     let n = out.finish();
     eprintln!("dhcp driver: {} scenarios, {} events", scen.len(), n);
